@@ -415,6 +415,8 @@ def concretize_value(v, model, depth=0):
         return bytes(v)
     if isinstance(v, enum.Enum):
         return v.value if isinstance(v.value, (int, str)) else repr(v)
+    if type(v).__name__ == "EnumProxy":
+        return concretize_value(v.value, model, depth + 1)
     if isinstance(v, (bool, int, str, type(None), float)):
         return v
     if isinstance(v, uuid.UUID):
@@ -533,10 +535,11 @@ def struct_eq(a, b, depth=0):
 
     if depth > 10:
         raise RecursionError("struct_eq")
-    if isinstance(a, enum.Enum) and isinstance(a, int):
-        a = int(a)
-    if isinstance(b, enum.Enum) and isinstance(b, int):
-        b = int(b)
+    # enum members are compared through .value (the integer value of a placeholder member need not be its value)
+    if isinstance(a, enum.Enum) or type(a).__name__ == "EnumProxy":
+        a = a.value
+    if isinstance(b, enum.Enum) or type(b).__name__ == "EnumProxy":
+        b = b.value
     if isinstance(a, (V.SymInt, V.SymBool)) or isinstance(b, (V.SymInt, V.SymBool)):
         return a == b
     if V.is_byteslike(a) and V.is_byteslike(b):
